@@ -48,6 +48,8 @@ struct StmtRef {
 }
 
 pub fn run(sc: &Scenario, trace: bool) -> Outcome {
+    // PoolConfig::default() would read /proc/cpuinfo for every pool
+    deadpool_runtime::verif::set_physical_cpus(4);
     let rt = tokio::runtime::Builder::new_current_thread()
         .enable_time()
         .start_paused(true)
